@@ -4,7 +4,7 @@ from explore import explore_scripts
 
 SPEC = {
     "properties_file": "Properties_C07.v",
-    "facts": ["probe_wait_ms", "prober_conflict", "T_ANY"],
+    "facts": ["probe_wait_ms", "prober_conflict", "prober_ignore_message", "T_ANY"],
     "assumptions": ["names that are valid UTF-8 without NUL (QString::arg / toUtf8 are then plain concatenation)",
                     "timers fire at or after their deadline (Qt coarse-timer slack is outside the model)"],
 }
